@@ -125,21 +125,90 @@ def _run_unit(unit):
     return r
 
 
-def run_pool(mod, units, jobs):
+def _pool_child(modname, unit, timeout, outpath, errpath):
+    efd = os.open(errpath, os.O_WRONLY | os.O_CREAT | os.O_TRUNC)
+    os.dup2(efd, 2)
+    os.close(efd)
+    _init_worker(modname)
+    if timeout:
+        signal.signal(signal.SIGPROF, signal.SIG_DFL)
+        signal.setitimer(signal.ITIMER_PROF, timeout)
+    r = _run_unit(unit)
+    signal.setitimer(signal.ITIMER_PROF, 0)
+    with open(outpath + ".tmp", "wb") as f:
+        pickle.dump(r, f)
+    os.rename(outpath + ".tmp", outpath)
+    os._exit(0)
+
+
+def run_pool(mod, units, jobs, unit_timeout=None):
+    """Every unit runs in a freshly forked worker: state leaking between calls (module globals, C statics,
+    caches) then depends only on the unit's own deterministic history, so a history-dependent violation can
+    be reproduced by re-running its unit in a fresh process.  A worker that dies (signal, sanitizer abort,
+    os._exit inside the library) or exceeds unit_timeout seconds of CPU time does not stall the run: it is
+    returned in Result.unit_crashes as dict(unit, status, stderr) and reported by the runner."""
     total = Result()
+    total.unit_crashes = []
     if jobs <= 1 or len(units) <= 1:
         _init_worker_inproc(mod)
         for u in units:
             total.merge(_run_unit(u))
         return total
-    ctx = mp.get_context("fork")
-    # every unit runs in a freshly forked worker (maxtasksperchild=1): state leaking between calls
-    # (module globals, C statics, caches) then depends only on the unit's own deterministic history,
-    # so a history-dependent violation can be reproduced by re-running its unit in a fresh process
-    with ctx.Pool(min(jobs, len(units)), initializer=_init_worker,
-                  initargs=(mod.__name__,), maxtasksperchild=1) as pool:
-        for r in pool.imap_unordered(_run_unit, units, chunksize=1):
-            total.merge(r)
+    tmpd = tempfile.mkdtemp(prefix="verif-pool-")
+    pending = list(enumerate(units))
+    pending.reverse()
+    running = {}
+    sys.stdout.flush()
+    sys.stderr.flush()
+    while pending or running:
+        while pending and len(running) < jobs:
+            ui, unit = pending.pop()
+            outp = os.path.join(tmpd, "u%d.out" % ui)
+            errp = os.path.join(tmpd, "u%d.err" % ui)
+            pid = os.fork()
+            if pid == 0:
+                try:
+                    _pool_child(mod.__name__, unit, unit_timeout, outp, errp)
+                finally:
+                    os._exit(3)
+            running[pid] = (ui, unit, outp, errp)
+        try:
+            pid, status = os.waitpid(-1, 0)
+        except ChildProcessError:
+            pid = 0
+        if not pid or pid not in running:
+            if not pid:
+                # no child left although some are recorded as running: treat them as lost
+                for p_, (ui, unit, outp, errp) in list(running.items()):
+                    total.unit_crashes.append(dict(unit=unit, status="worker lost", stderr=""))
+                    running.pop(p_)
+            continue
+        ui, unit, outp, errp = running.pop(pid)
+        if os.WIFEXITED(status) and os.WEXITSTATUS(status) == 0 and os.path.exists(outp):
+            with open(outp, "rb") as f:
+                total.merge(pickle.load(f))
+        else:
+            try:
+                with open(errp, "r", errors="replace") as f:
+                    err = f.read()[-20000:]
+            except OSError:
+                err = ""
+            if os.WIFSIGNALED(status):
+                desc = "signal %d" % os.WTERMSIG(status)
+                if os.WTERMSIG(status) == signal.SIGPROF:
+                    desc = "timeout > %gs of CPU time (SIGPROF)" % unit_timeout
+            else:
+                desc = "exit status %d" % os.WEXITSTATUS(status)
+            total.unit_crashes.append(dict(unit=unit, status=desc, stderr=err))
+        for fn in (outp, errp):
+            try:
+                os.remove(fn)
+            except OSError:
+                pass
+    try:
+        os.rmdir(tmpd)
+    except OSError:
+        pass
     return total
 
 
